@@ -1,9 +1,13 @@
 """Properties not (or not yet) claimed, with the reason. Entries for claimed properties are ignored."""
 NOT_BUILT = "check not built yet in this session (planned, see DESIGN.md §3); no claim is made"
 NA = {f"C{i:02d}": NOT_BUILT for i in range(1, 20)}
-NA["C08"] = ("name resolution is decided entirely inside compile() (String joins, HashMap<String,_>), which Kani cannot execute "
-             "within reach (>20 min for a one-card module, DESIGN.md §0); once the compiler runs natively no symbolic variable is left, "
-             "so solver-based checking of the real code does not apply")
+NA["C08"] = ("name resolution is decided inside compile(); compile() does not close under Kani/CBMC even with an empty injected std module "
+             "(25 min, 4.5 GB, DESIGN.md 0). The resolution units were then driven one by one through hooks (resolve_function with "
+             "solver-chosen sets of existing functions, add_function, super_depth): written, run natively (they exposed four genuine "
+             "defects, all repaired by fix: commits), but under Kani every resolve_function harness - even one called name with at most "
+             "four solver-chosen functions - ran past 25 minutes (String building through iterator chains, the two-way string searcher "
+             "of split_once, hashbrown iteration), and super_depth on 7 symbolic bytes past 5 minutes. With no harness closing there is "
+             "no solver verdict to report, so no claim is made; the harnesses are kept as tier x in harness/src/c08.rs")
 NA["C09"] = ("every clause needs the VM running script callbacks over heap tables (ForEach + DynamicCall + SetProperty per element, "
              "or run_function re-entry plus sort_by); whole-VM runs beyond ~5 dispatches and table histories beyond one operation do not "
              "close under Kani/CBMC (DESIGN.md §0); the comparator is covered by C19, table operations by C07, re-entry by C18")
